@@ -477,7 +477,12 @@ H_Locate(st, req, p) ==
     LET vis == LocateVisible(st, Ident(req))
         verdict(u) == ObjMatch(st.objs[u], u, p.filters, 1, NoDates)
         errs == {u \in vis : verdict(u) \notin {"match", "nomatch"}} IN
-    IF Len(p.filters) > 0 /\ errs # {}
+    \* a negative count is no page (-1 is this model's marker for "absent")
+    IF p.offset < -1 \/ p.max < -1 THEN Fail(st, "InvalidField")
+    \* a filter on an attribute the request's version does not know yet is refused - whatever is stored
+    ELSE IF \E i \in DOMAIN p.filters : HasRule(p.filters[i].name) /\ ~AttrSupported(p.filters[i].name, req.ver)
+    THEN Fail(st, "InvalidField")
+    ELSE IF Len(p.filters) > 0 /\ errs # {}
     THEN LET first == CHOOSE u \in errs : \A w \in errs : u <= w IN
          IF verdict(first) = "Internal" THEN Internal(st) ELSE Fail(st, verdict(first))
     ELSE LET m == IF Len(p.filters) = 0 THEN vis ELSE {u \in vis : verdict(u) = "match"} IN
